@@ -619,6 +619,17 @@ func c18Replays(run *PropRun) {
 		fail("SetSize(30,10) followed by Show() produced no resize event")
 		return
 	}`)
+		case "tcell.(*simscreen).SetSize/ensures#cursor-query-consistent":
+			g.ReplayGo = replayTest("tcell", nil, `
+	s := NewSimulationScreen("").(*simscreen)
+	if err := s.Init(); err != nil { fail("init: %v", err); return }
+	s.ShowCursor(5, 5)
+	s.Show()
+	s.SetSize(40, 10)
+	if x, y, vis := s.GetCursor(); vis != (x >= 0 && y >= 0 && x < 40 && y < 10) {
+		fail("after ShowCursor(5,5); Show; SetSize(40,10) the cursor query says position (%d,%d) visible=%v", x, y, vis)
+		return
+	}`)
 		case "tcell.(*simscreen).Fini/ensures#second-is-noop", "tcell.(*simscreen).Fini/ensures#at-most-once":
 			g.ReplayGo = replayTest("tcell", nil, `
 	s := NewSimulationScreen("")
@@ -799,6 +810,53 @@ func (*verifSeqTty) Drain() error                    { return nil }
 func (*verifSeqTty) NotifyResize(cb func())          {}
 func (*verifSeqTty) WindowSize() (WindowSize, error) { return WindowSize{Width: 80, Height: 24}, nil }
 `
+		case "tcell.(*tScreen).collectEventsFromInput/loop1/invariant-entry#esc-carried":
+			g.ReplayGo = replayKeyTableImports("xterm", []string{"bytes"}, `
+	s.cells.Resize(80, 24)
+	buf := bytes.NewBufferString("\x1b\x1b[")
+	evs := s.collectEventsFromInput(buf, false)
+	buf.WriteString("A")
+	evs = append(evs, s.collectEventsFromInput(buf, false)...)
+	if len(evs) != 1 { fail("ESC ESC [ | A produced %d events", len(evs)); return }
+	k, ok := evs[0].(*EventKey)
+	if !ok || k.Key() != KeyUp || k.Modifiers() != ModAlt {
+		fail("ESC ESC [ A split before the A decoded to %v: the Alt prefix read with the first chunk was forgotten (in one read it is Alt+Up)", evs[0])
+		return
+	}`)
+		case "tcell.(*tScreen).inputLoop/calls#no-byte-lost":
+			g.ReplayGo = replayTest("tcell", []string{"io", "time", modPath + "/terminfo"}, `
+	tty := &verifErrTty{}
+	s := &tScreen{ti: &terminfo.Terminfo{}, tty: tty, running: true}
+	s.keychan = make(chan []byte, 10)
+	s.eventQ = make(chan Event, 10)
+	s.quit = make(chan struct{})
+	s.wg.Add(1)
+	go s.inputLoop(make(chan struct{}))
+	select {
+	case c := <-s.keychan:
+		if string(c) != "abc" { fail("the bytes of the failing read arrived as %q", string(c)); return }
+	case <-time.After(time.Second):
+		fail("Read returned (3, io.EOF) with the bytes \"abc\": they were never handed to the decoder (an io.Reader may return data together with an error)")
+		return
+	}
+	_ = io.EOF`) + `
+type verifErrTty struct{ done bool }
+
+func (t *verifErrTty) Read(p []byte) (int, error) {
+	if !t.done {
+		t.done = true
+		return copy(p, "abc"), io.EOF
+	}
+	select {}
+}
+func (*verifErrTty) Write(p []byte) (int, error)     { return len(p), nil }
+func (*verifErrTty) Close() error                    { return nil }
+func (*verifErrTty) Start() error                    { return nil }
+func (*verifErrTty) Stop() error                     { return nil }
+func (*verifErrTty) Drain() error                    { return nil }
+func (*verifErrTty) NotifyResize(cb func())          {}
+func (*verifErrTty) WindowSize() (WindowSize, error) { return WindowSize{Width: 80, Height: 24}, nil }
+`
 		case "tcell.(*tScreen).parseRune/ensures#all-prefixes":
 			g.ReplayGo = replayTest("tcell", []string{"bytes", modPath + "/terminfo"}, `
 	s := &tScreen{ti: &terminfo.Terminfo{}}
@@ -907,6 +965,15 @@ func (t *c05Tty) Drain() error                    { return nil }
 func (t *c05Tty) NotifyResize(cb func())          {}
 func (t *c05Tty) WindowSize() (WindowSize, error) { return WindowSize{Width: 100, Height: 40}, nil }
 `
+		case "tcell.(*baseScreen).PostEvent/calls#not-after-stop":
+			g.ReplayGo = replayTest("tcell", nil, `
+	s := NewSimulationScreen("")
+	if err := s.Init(); err != nil { fail("init: %v", err); return }
+	s.Fini()
+	if err := s.PostEvent(NewEventInterrupt(nil)); err == nil {
+		fail("PostEvent() on a finished screen returned nil (HasPendingEvent=%v), but PollEvent() will never deliver the event: %v", s.HasPendingEvent(), s.PollEvent())
+		return
+	}`)
 		case "tcell.(*baseScreen).ChannelEvents/calls#interruptible":
 			g.ReplayGo = replayTest("tcell", []string{"time"}, `
 	s := NewSimulationScreen("")
